@@ -40,10 +40,94 @@ def run(R):
     reach = P.reachable(rules_sites_roots(R))
     inert = E.inert_fields(P, ENG_ADT, reach)
 
+    def semantic_admit(f):
+        """the admission test spelled out instead of calling Row::any_result(): `columns.iter().any(is_not_null)` / `find` / `position` /
+        `!all(is_null)` over the extracted row, branched on directly or through an outcome value (a bool flag or an enum such as
+        `RowAdmission::{Admitted, Rejected}`) that is assigned in the two arms and tested later.
+        Returns (switch, admitted target, rejected target, witness call)."""
+        ex = PR.calls_matching(f, EXTRACT)
+        if len(ex) != 1:
+            return None
+        for c in f.calls:
+            m = re.search(r"(?:^core::iter::traits::iterator::Iterator::|as core::iter::traits::iterator::Iterator>::)(any|all|find|position)$", short(c.name))
+            if not m or not c.args:
+                continue
+            tests = []
+            for ck in (c.func.get("closure_args") or []):
+                g_ = P.fns.get(ck)
+                if g_ is None:
+                    continue
+                if g_.kind != "Closure":
+                    tests.append(g_.spath)          # `any(Value::is_not_null)`: the predicate itself is passed
+                else:
+                    tests += [short(c2.name) for c2 in g_.calls]
+            nn = any(t.endswith("Value::is_not_null") for t in tests)
+            nl = any(t.endswith("Value::is_null") for t in tests)
+            if nn == nl:
+                continue
+            ros = F.origins(f, c.args[0], depth=30)
+            if not any(o.kind == "call" and o.call is ex[0] for o in ros):
+                continue
+            if any(o.kind == "call" and re.search(r"::(skip|take|filter|rev|step_by|skip_while|take_while|nth|filter_map|chain|zip)$", short(o.call.name)) for o in ros):
+                continue    # not a test over *all* columns
+            kind = m.group(1)
+            if kind in ("any", "all"):
+                g = PR.bool_guard(f, c)
+                if g is None:
+                    continue
+                # any(is_not_null): true = admitted; all(is_null): true = rejected; (any(is_null) / all(is_not_null) mean something else)
+                if (kind == "any" and nn) or (kind == "all" and nl):
+                    adm1, rej1 = (g[1], g[2]) if kind == "any" else (g[2], g[1])
+                else:
+                    continue
+                sw1 = g[0]
+            else:
+                if not nn:
+                    continue
+                g = PR.discr_guard(f, c, "Some")
+                if g is None or not g[2]:
+                    continue
+                sw1, adm1, rej1 = g[0], g[1], g[2][0]
+            if F.edge_target_unique(f, sw1, adm1) and not _is_outcome_assignment(f, adm1):
+                return (sw1, adm1, rej1, c)
+            # through an outcome value assigned in the arms
+            for sw2 in sorted(f.reach):
+                info = F.switch_info(f, sw2)
+                if not info or sw2 == sw1 or not f.dominates(sw1, sw2):
+                    continue
+                if info[0] == "discr" and not [e for e in info[1]["pl"]["p"] if e != "*"]:
+                    vb = F._variant_value_blocks(f, info[1]["pl"]["l"])
+                    names = dict((dv, n_) for dv, n_ in info[1].get("variants", []))
+                elif info[0] == "bool" and info[1].get("k") in ("copy", "move") and not info[1]["pl"]["p"]:
+                    fb = F._flag_value_blocks(f, info[1]["pl"]["l"])
+                    vb = {"1": fb[True], "0": fb[False]} if fb else None
+                    names = {"0": "0"}
+                else:
+                    continue
+                if not vb:
+                    continue
+                adm_vs = [v for v, bs in vb.items() if bs and all(f.dominates(adm1, b) for b in bs)]
+                rej_vs = [v for v, bs in vb.items() if bs and all(f.dominates(rej1, b) for b in bs)]
+                if len(adm_vs) != 1 or len(adm_vs) + len(rej_vs) != len([v for v, bs in vb.items() if bs]):
+                    continue
+                tg = dict(info[2])
+                if info[0] == "discr":
+                    lab = [l_ for l_, n_ in names.items() if n_ == adm_vs[0]]
+                    t_adm = tg.get(lab[0], tg.get("otherwise")) if lab else None
+                    t_rej = [b for l_, b in tg.items() if b != t_adm]
+                else:
+                    t_adm = tg.get("otherwise") if adm_vs[0] == "1" else tg.get("0")
+                    t_rej = [tg.get("0") if adm_vs[0] == "1" else tg.get("otherwise")]
+                if t_adm is not None and t_rej and F.edge_target_unique(f, sw2, t_adm):
+                    return (sw2, t_adm, t_rej[0], c)
+        return None
+
     def direct_admit(f):
         """(switch, admitted target, rejected target, any_result call) when f extracts a row and branches on its any_result()"""
         ex = PR.calls_matching(f, EXTRACT)
         ar = PR.calls_matching(f, ANY_RESULT)
+        if len(ex) == 1 and not ar:
+            return semantic_admit(f)
         if len(ex) != 1 or len(ar) != 1:
             return None
         if not any(o.kind == "call" and o.call is ex[0] for o in F.origins(f, ar[0].args[0], depth=6)):
@@ -85,7 +169,7 @@ def run(R):
         touches = PR.calls_matching(f, EXTRACT) or [c for c in f.calls if any(k2 in helpers for k2 in P.callee_keys(f, c))]
         if not touches or f.spath.startswith("sqlgrep::table_editor") or f.spath.startswith("sqlgrep::python_wrapper"):
             continue
-        per_line.append(f)
+        per_line.append(PR.view(P, f))      # helpers that are new to the tree (an `admission()` predicate, ..) inlined
     for f in per_line:
         key = f.spath.split("::")[-1]
         d = admit_edge(f)
@@ -191,7 +275,7 @@ def run(R):
         kk = owner.spath
         if kk.startswith("sqlgrep::table_editor") or kk.startswith("sqlgrep::python_wrapper"):
             R.ok("C06.callers", kk, "interactive editor preview (not a query)", cf.loc(), nontrivial=False)
-        elif cf.key in helpers or direct_admit(cf) is not None:
+        elif cf.key in helpers or direct_admit(PR.view(P, cf) if cf.kind != "Closure" else cf) is not None:
             R.ok("C06.callers", kk, "carries the any_result() admission test for the row it extracts", cf.loc())
         else:
             R.violation("C06.callers", kk, "%s calls TableDefinition::extract without testing any_result() on the row: the admission guard of "
@@ -199,10 +283,19 @@ def run(R):
     R.floor("C06.callers", 1)
     # admission predicate
     anyf = R.need_fn("sqlgrep::data_model::Row::any_result")
+    any_users = [g_ for g_ in P.fns.values() if g_.target == "lib" and g_.key in reach and PR.calls_matching(g_, ANY_RESULT)]
     names = [short(c.name) for c in anyf.calls]
+    if not any_users:
+        # the per-line entries test admission in place (C06.guard found `columns.iter().any/find(is_not_null)` on the extracted row):
+        # what Row::any_result() computes no longer decides which lines a query sees
+        R.ok("C06.admit", "any_result", "not called on the execution paths: admission is tested in place by the per-line entries", anyf.loc(),
+             nontrivial=False)
+        names = None
     child = [short(c.name) for ch in P.children.get(anyf.key, []) for c in ch.calls]
-    adapters = [n for n in names if n.endswith(("::skip", "::take", "::filter", "::rev", "::step_by", "::skip_while", "::take_while", "::nth"))]
-    if any(n.endswith("::any") for n in names) and child == ["sqlgrep::model::Value::is_not_null"] and not adapters:
+    adapters = [n for n in (names or []) if n.endswith(("::skip", "::take", "::filter", "::rev", "::step_by", "::skip_while", "::take_while", "::nth"))]
+    if names is None:
+        pass
+    elif any(n.endswith("::any") for n in names) and child == ["sqlgrep::model::Value::is_not_null"] and not adapters:
         R.ok("C06.admit", "any_result", "iter().any(|x| x.is_not_null()) over all columns", anyf.loc())
     elif any(n.endswith("::all") for n in names) and child == ["sqlgrep::model::Value::is_null"] and not adapters and \
             any(st["rv"]["k"] == "unop" and st["rv"]["op"] == "Not" for _, st in anyf.stmts()):
@@ -234,6 +327,16 @@ def run(R):
             R.violation("C06.limit", w.spath, "%s writes the LIMIT counter from something else than the emitted rows (e.g. per line): lines that "
                                               "yield no row would use up the limit" % w.path, [w.loc()])
     R.assume("extraction is a pure function of (definition, line): decided separately by C01.pure")
+
+
+def _is_outcome_assignment(f, bb):
+    """the block only records the outcome of the test in a flag / enum local and falls through (the real branch comes later)"""
+    b = f.blocks[bb]
+    if b["term"]["k"] != "goto":
+        return False
+    sts = [st for st in b["stmts"] if st["k"] == "assign"]
+    return bool(sts) and all(not st["pl"]["p"] and ((st["rv"]["k"] == "aggr" and not st["rv"]["ops"]) or
+                                                   (st["rv"]["k"] == "use" and st["rv"]["op"].get("k") == "const")) for st in sts)
 
 
 def _any_result_loop_problem(f):
